@@ -9,7 +9,8 @@ gen_main_program(rng)      the big program (same-named methods on different rece
                            packages, local / aliased / composite type arguments, globals, goroutines, function values,
                            bound methods and method expressions on pairwise different (receiver name, method name))
 dotted_path_program()      package `m/a.B` func C next to package `m/a` method (B).C      (known finding)
-wrapper_collision_program()bound-method closures / method expressions on same-named types of different packages
+wrapper_collision_program()bound-method closures / method expressions on same-named types of different packages, and
+                           promoted methods of two function-local types with the same identifier   (known findings)
 linkname_program()         //go:linkname to C symbols and //export (no reference toolchain run: expected output is known)
 routine_program()          user function `_llgo_routine` with a function literal + a go statement
 """
@@ -180,18 +181,66 @@ def dotted_path_program(mod="d"):
 
 
 def wrapper_collision_program(mod="w"):
+    """witness program of the two receiver-rendering defects; -> files, ids, order, expected value lines
+    line 1/2: method values / method expressions of same-named types of three packages
+    line 3:   promoted methods of two function-local types with the same identifier"""
     ids = Ids()
+    main = """package main
+
+import (
+	"MOD/a"
+	"MOD/b"
+)
+
+type T struct{ X int }
+
+func (t T) M() int { println(%d); return 21 }
+
+func call(f func() int) int { return f() }
+
+type A struct{}
+
+func (A) M() int { println(%d); return 1 }
+
+type B struct{}
+
+func (B) M() int { println(%d); return 2 }
+
+type I interface{ M() int }
+
+func f() I {
+	type L struct{ A }
+	return L{}
+}
+
+func g() I {
+	type L struct{ B }
+	return L{}
+}
+
+func main() {
+	f1 := a.T{}.M
+	f2 := T{}.M
+	f3 := b.T{}.M
+	println(call(f1), call(f2), call(f3))
+	e1 := a.T.M
+	e2 := T.M
+	e3 := b.T.M
+	println(e1(a.T{}), e2(T{}), e3(b.T{}))
+	println(f().M(), g().M())
+}
+""".replace("MOD", mod)
+    ia = ids.new(mod + "/a", "method", "T.M")
+    ib = ids.new(mod + "/b", "method", "T.M")
     files = {
         "go.mod": "module %s\n\ngo 1.24\n" % mod,
-        "a/x.go": "package a\n\ntype T struct{ X int }\n\nfunc (t T) M() int { println(%d); return 1 }\n" % ids.new(mod + "/a", "method", "T.M"),
-        "b/x.go": "package b\n\ntype T struct{ X int }\n\nfunc (t T) M() int { println(%d); return 11 }\n" % ids.new(mod + "/b", "method", "T.M"),
-        "main.go": ('package main\n\nimport (\n\t"MOD/a"\n\t"MOD/b"\n)\n\ntype T struct{ X int }\n\nfunc (t T) M() int { println(%d); return 21 }\n\n'
-                    "func call(f func() int) int { return f() }\n\nfunc main() {\n\tf1 := a.T{}.M\n\tf2 := T{}.M\n\tf3 := b.T{}.M\n\tprintln(call(f1), call(f2), call(f3))\n"
-                    "\te1 := a.T.M\n\te2 := T.M\n\te3 := b.T.M\n\tprintln(e1(a.T{}), e2(T{}), e3(b.T{}))\n}\n").replace("MOD", mod) % ids.new(mod, "method", "T.M"),
+        "a/x.go": "package a\n\ntype T struct{ X int }\n\nfunc (t T) M() int { println(%d); return 1 }\n" % ia,
+        "b/x.go": "package b\n\ntype T struct{ X int }\n\nfunc (t T) M() int { println(%d); return 11 }\n" % ib,
+        "main.go": main % (ids.new(mod, "method", "T.M"), ids.new(mod, "method", "A.M"), ids.new(mod, "method", "B.M")),
     }
     order = [{"path": mod + "/a", "dir": "a", "files": ["x.go"]}, {"path": mod + "/b", "dir": "b", "files": ["x.go"]}, {"path": mod, "dir": ".", "files": ["main.go"]}]
     files["order.json"] = json.dumps({"pkgs": order})
-    return files, ids, order
+    return files, ids, order, ["1 21 11", "1 21 11", "1 2"]
 
 
 def linkname_program(mod="k"):
